@@ -3,6 +3,7 @@ package props
 import (
 	"encoding/json"
 	"fmt"
+	"github.com/corazawaf/coraza/v3/experimental"
 	"io"
 	"os"
 	"path/filepath"
@@ -109,7 +110,7 @@ type c05Case struct {
 	// to On by ctl and leave enforcing state (allow, interruption) behind.
 	WafEngine string  `json:"waf_engine,omitempty"`
 	Pred      []c05Tx `json:"predecessors"`
-	Probe c05Tx   `json:"probe"`
+	Probe     c05Tx   `json:"probe"`
 }
 
 type c05Outcome struct {
@@ -181,7 +182,13 @@ func c05Run(waf coraza.WAF, t *c05Tx, closeIt bool) (*c05Outcome, types.Transact
 	rec := obs.Attach(id)
 	defer obs.Detach(id)
 	obs.TakeAudit()
-	tx := waf.NewTransactionWithID(id)
+	var tx types.Transaction
+	if wo, ok := waf.(experimental.WAFWithOptions); ok && (len(t.Steer)+len(t.Extra))%2 == 1 {
+		// the experimental entry point, used the way its documentation shows it (an ID, no Context)
+		tx = wo.NewTransactionWithOptions(experimental.Options{ID: id})
+	} else {
+		tx = waf.NewTransactionWithID(id)
+	}
 	out := &c05Outcome{Dumps: map[string][]string{}}
 	var keep io.Reader
 	step := 0
